@@ -144,7 +144,7 @@ def check(run, model, tier):
     sets = [n for n in g.nodes if n.kind == 'stmt' and isinstance(n.ast, ast.Assign) and any(dotted(t) == selfn + '.event.ignored' for t in n.ast.targets)]
     true_sets = [n for n in sets if isinstance(n.ast.value, ast.Constant) and n.ast.value.value is True]
     false_sets = [n for n in sets if isinstance(n.ast.value, ast.Constant) and n.ast.value.value is False]
-    run.floor('dispatch: event.ignored assignments', len(sets), 2)
+    run.floor('dispatch: event.ignored assignments', len(sets), 1)
     hcalls = [n for n in g.nodes if n.kind not in ('entry', 'exit', 'xexit', 'def') and any(c.args and isinstance(c.args[0], ast.Name) and c.args[0].id == selfn and not isinstance(c.func, ast.Attribute) or
                                                                                          (c.args and isinstance(c.args[0], ast.Name) and c.args[0].id == selfn and isinstance(c.func, (ast.Name, ast.Subscript))) for c in n.calls())]
     ok = bool(false_sets) and all(any(g.dominates(fs, hc) for fs in false_sets) for hc in hcalls)
